@@ -30,8 +30,8 @@ m) a read that planned with the old live list may still be running when the hand
    then FAIL the read, not answer it: ColumnLoader::read_column_for_zone may not turn a load error into an empty column (rows with NULL cells / half the COUNT are returned as a normal answer).
 Not decided: content equality, behaviour after a crash inside a run, a read that re-loads a retired label between invalidation and reclaim.
 """
-FLOOR = 16
-REQUIRED = ["C05.a", "C05.b1", "C05.b2", "C05.b3", "C05.c", "C05.d", "C05.e", "C05.f", "C05.g", "C05.h", "C05.i", "C05.j", "C05.k", "C05.l", "C05.m", "C05.n"]
+FLOOR = 17
+REQUIRED = ["C05.a", "C05.b1", "C05.b2", "C05.b3", "C05.c", "C05.d", "C05.e", "C05.f", "C05.g", "C05.h", "C05.i", "C05.j", "C05.k", "C05.l", "C05.m", "C05.n", "C05.o"]
 
 
 def run(ctx):
@@ -350,6 +350,14 @@ def run(ctx):
             ty = k.rsplit("::", 1)[0]
             short = ty.split("::")[-1]
             fam = [F.fn_exact(k)] + [F.fn_exact(x) for x in F.find("^" + re.escape(k) + r"::\{closure")]
+            # predicates factored out into helpers of the same module (`fn belongs_to_segment(key, label)`), two levels
+            mod_ = k.rsplit("::", 2)[0]
+            for _ in range(2):
+                for B in list(fam):
+                    for c_ in B.calls:
+                        if not c_.cleanup and c_.callee and F.has(c_.callee) and c_.callee.startswith(mod_) and not any(f_.key == c_.callee for f_ in fam):
+                            fam.append(F.fn_exact(c_.callee))
+                            fam += [F.fn_exact(x) for x in F.find("^" + re.escape(c_.callee) + r"::\{closure")]
             pe = [(B, c_) for B in fam for c_ in B.calls if not c_.cleanup and re.search(r"path::Path::ends_with$", c_.nname)]
             if not pe:
                 inst.sites.append("%s: no path-component test" % short)
@@ -436,6 +444,36 @@ def run(ctx):
             bad.append(("allocator-ignores-directories", "the planner's id allocator is seeded from segments.idx only: the id of a directory that is on disk but not indexed (crash leftover, retired segment) is handed out again and the compactor writes into it", sp(b, al.bb)))
         return bad
     ctx.run("C05.n", "K7 PROV", "KWayCountPolicy::plan / RangeAllocator::from_existing_ids", "output ids are fresh with respect to the directories on disk", n_)
+
+    def o_(inst):
+        """ZoneWriter::write_all appends to the column files but writes the per-uid metadata (.zones, .zfc, .idx, filters, calendars)
+        from scratch from the plans it is given. The compactor must therefore hand it ALL merged zones of a uid in ONE call: the call
+        is not in a loop, it is the only one, the vector it gets is the one every ZonePlan::from_rows result was pushed into, and
+        nothing empties that vector in between."""
+        bad = []
+        m = F.fn("MultiUidCompactor::compact_uid")
+        was = [c for c in m.calls if not c.cleanup and c.nname.endswith("ZoneWriter::write_all")]
+        if not was:
+            raise AnchorMissing("ZoneWriter::write_all in compact_uid")
+        fr = one(m, r"ZonePlan::from_rows$")
+        inst.sites = [sp(m, c.bb) for c in was] + [sp(m, fr.bb)]
+        if len(was) > 1:
+            bad.append(("zones-written-in-pieces", "compact_uid calls ZoneWriter::write_all at %d sites: every call rewrites the uid's zone metadata from scratch, only the last piece survives" % len(was), sp(m, was[1].bb)))
+        for w in was:
+            if m.can_reach(w.to, w.bb):
+                bad.append(("zones-written-in-pieces", "compact_uid calls ZoneWriter::write_all inside a loop: every call rewrites the uid's zone metadata from scratch, only the last piece survives", sp(m, w.bb)))
+                break
+        w = was[0]
+        plans = m._origin_locals(w.args[1])
+        pushes = [c for c in m.calls if not c.cleanup and c.nname.endswith("Vec::push") and (m._origin_locals(c.args[0]) & plans)]
+        planv = {l for l, _ in m.flow_forward(fr.dest)}
+        if not any(wide_all(m, c.args[1]) & planv or m._origin_locals(c.args[1]) & planv for c in pushes):
+            bad.append(("plans-not-collected", "the vector handed to write_all is not the one the merged ZonePlans are pushed into", sp(m, w.bb)))
+        for c in m.calls:
+            if not c.cleanup and re.search(r"Vec::(clear|truncate|drain|pop|split_off|swap_remove|remove)$|mem::take$", c.nname) and c.args and (m._origin_locals(c.args[0]) & plans) and m.can_reach(c.bb, w.bb):
+                bad.append(("plans-dropped-before-write:%s" % c.nname.split("::")[-1], "compact_uid removes merged zone plans from the vector (%s) before it is written" % c.nname.split("::")[-1], sp(m, c.bb)))
+        return bad
+    ctx.run("C05.o", "K9 LOOP + K7", "MultiUidCompactor::compact_uid", "all merged zones of a uid reach the zone writer in one call", o_)
 
     def l_(inst):
         b = F.fn("ZoneCursorLoader::load_all")
